@@ -105,8 +105,8 @@ class C12(Prop):
         "dsq_open_written", "dsq_bytes_round_trip", "dsq_bytes_round_trip_defaults", "dsq_open_corrupt_header", "dsq_stub_tag",
         "dsq_threaded_read_is_database", "open_rejects", "read_written_database", "chunk_ownership_exclusive", "pipe_lock_discipline",
         "codec_chunk_layout", "codec_unpack_smem", "codec_pack_unpack_smem", "dsq_chunks_unpack_in_place", "codec_pack_smem", "pipe_wait_conditions_guarded", "pipe_lane_local", "pipe_recycling_nchunk_local", "pipe_half_lane_local",
-        "pipe_variant", "pipe_wait_is_stutter", "pipe_progress_enabled", "pipe_liveness_weak_fairness",
-        "pipe_cut_safety", "pipe_cut_never_eof", "pipe_cut_no_deadlock", "pipe_cut_abort_final", "dsq_loader_outcomes", "dsq_cut_data_files")]
+        "pipe_variant", "pipe_wait_is_stutter", "pipe_progress_enabled", "pipe_liveness_weak_fairness", "pipe_fair_execution_exists",
+        "pipe_cut_safety", "pipe_cut_never_eof", "pipe_cut_no_deadlock", "pipe_cut_abort_final", "dsq_loader_outcomes", "dsq_cut_data_files", "dsq_cut_files", "dsq_written_passes_nseq_check")]
     claimed = True
     level_text = ("Theorems for every schedule of one reader and any number of workers (one atomic step per mutex-protected region, spurious wake-ups allowed): "
                   "conservation and exclusivity of blocks, FIFO on both queues (history variables), counters in range and pendingWorkers = number of sleepers, "
@@ -132,8 +132,8 @@ class C12(Prop):
                   "locality theorems (a step commutes with arbitrary changes of every shared field whose mutex it does not hold: other lanes, the other half of its own "
                   "lane, the recycling stack, nchunk - i.e. it does not read them either); on the code this is checked on observed traces (held-mutex sets, snapshots "
                   "under the mutex equal the model state, digests of parked chunks unchanged). Caller contract of the queue stated as `Admissible`. "
-                  "A .dsqi cut short behind its header is NOT an error in the code (fread's short count is taken as end of data: the database reads as a smaller one, "
-                  "silently) - modelled as it is, compared exactly, reported as a finding. Weak fairness is a hypothesis of the liveness theorem (the scheduler is not modelled). "
+                  "A .dsqi cut short behind its header used to read as a smaller complete database; repaired upstream (78cbf46: the loader checks the header's nseq at end of data), "
+                  "the model follows the repaired loader. Weak fairness is a hypothesis of the liveness theorem (the scheduler is not modelled). "
                   "Not covered: the esl_workqueue_queuelock_* variants (unfinished code); the loader's other exceptions (failing pthread calls, allocation failure).")
     diverge_is_violation = True
     fault_is_output = True      # a sanitizer abort is an output line; it must coincide with the model's `fault`
@@ -183,11 +183,7 @@ class C12(Prop):
             m = re.search(r"%s\s*=\s*([^;]+);" % name, c)
             if not m: raise RuntimeError("esl_dsqdata.c: cannot find %s = <value>;" % name)
             return value(m.group(1), name)
-        # does the loader compare the number of sequences it loaded with the header's nseq when it meets end of data? (a .dsqi cut short
-        # behind its header is then a fatal loader error instead of a silently smaller database)
-        m = re.search(r"dsqdata_loader_thread\s*\(void \*p\)\s*\{(.*?)\n\}", c, re.S)
-        checks = bool(m and re.search(r"if\s*\(\s*nidx\s*==\s*0\s*\).{0,700}?[!=]=\s*dd->nseq", m.group(1), re.S))
-        return {"loaderChecksNseq": checks, "magic": static("eslDSQDATA_MAGIC_V1"), "magicSwap": static("eslDSQDATA_MAGIC_V1SWAP"),
+        return {"magic": static("eslDSQDATA_MAGIC_V1"), "magicSwap": static("eslDSQDATA_MAGIC_V1SWAP"),
                 "chunkMaxseq": define("eslDSQDATA_CHUNK_MAXSEQ"), "chunkMaxpacket": define("eslDSQDATA_CHUNK_MAXPACKET"),
                 "unpackers": define("eslDSQDATA_UNPACKERS"), "umax": define("eslDSQDATA_UMAX")}
 
@@ -204,14 +200,12 @@ class C12(Prop):
                "chunkMaxpacket": "eslDSQDATA_CHUNK_MAXPACKET", "unpackers": "eslDSQDATA_UNPACKERS", "umax": "eslDSQDATA_UMAX"}
         fmt = lambda n, v: ("0x%08x" % v) if n.startswith("magic") else str(v)
         body = "".join("/-- `%s` -/\nabbrev %s : Nat := %s\n" % (doc[n], n, fmt(n, k[n])) for n in ("magic", "magicSwap", "chunkMaxseq", "chunkMaxpacket", "unpackers", "umax"))
-        body += ("/-- does `dsqdata_loader_thread` compare the number of sequences it loaded with `dd->nseq` at end of data? -/\n"
-                 "abbrev loaderChecksNseq : Bool := %s\n" % ("true" if k["loaderChecksNseq"] else "false"))
         return {"EaselModel/Dsqdata/Consts.lean":
                 "/-! GENERATED from esl_dsqdata.h / esl_dsqdata.c of the working tree by props/c12.py (`SPEC.generated`) - do not edit.\n"
                 "The compile-time constants of the dsqdata format and reader. -/\nnamespace EaselModel.Dsqdata.Consts\n" + body + "end EaselModel.Dsqdata.Consts\n"}
 
     def K(self, name):
-        return getattr(self, "_consts", None) and self._consts[name] or {"magic": 0xc4d3d1b1, "chunkMaxseq": 4096, "chunkMaxpacket": 262144, "unpackers": 4, "umax": 4, "loaderChecksNseq": False}[name]
+        return getattr(self, "_consts", None) and self._consts[name] or {"magic": 0xc4d3d1b1, "chunkMaxseq": 4096, "chunkMaxpacket": 262144, "unpackers": 4, "umax": 4}[name]
 
     # ------------------------------------------------------------------ inputs
     def corpus(self, ctx):
@@ -403,8 +397,9 @@ class C12(Prop):
             W = rng.randrange(1, 7)
             B = rng.choice([1, size, rng.randrange(1, size + 1)])
             M = rng.choice([0, 1, 2, 7, 20, rng.randrange(0, 60 if quick else 400)])
-            out.append({"name": "wqrun%d" % c, "ops": ["wqrun size=%d workers=%d blocks=%d items=%d seed=%d pert=%d lazy=%d slow=%s" % (
-                size, W, B, M, rng.randrange(1, 1 << 30), rng.choice([0, 10, 30, 60, 90]), rng.random() < 0.4, rng.choice(["-", "-", "R", "W"]))]})
+            out.append({"name": "wqrun%d" % c, "ops": ["wqrun size=%d workers=%d blocks=%d items=%d seed=%d pert=%d lazy=%d slow=%s extra=%d" % (
+                size, W, B, M, rng.randrange(1, 1 << 30), rng.choice([0, 10, 30, 60, 90]), rng.random() < 0.4, rng.choice(["-", "-", "R", "W"]),
+                rng.choice([0, 0, 1, 2, 8]))]})       # extra: Complete / no-op Updates in mid-run, abandoned blocks in the worker queue before the final Reset
             stats["wqrun"] += 1
         # queue size <= number of workers (the reader and the workers keep hitting empty / single-slot queues), every run
         for (size, W, B) in [(1, 1, 1), (1, 2, 1), (1, 4, 1), (1, 6, 1), (2, 2, 2), (2, 3, 1), (2, 4, 2), (2, 6, 2), (3, 3, 3), (3, 6, 2), (4, 4, 4), (4, 6, 3)]:
@@ -591,15 +586,15 @@ class C12(Prop):
                     return "dsqi:%d:%d" % (off, m)
                 if kind == "idxhdr":
                     off = rng.randrange(12, 52)
-                    # in a tree whose loader checks the header's nseq (bytes 36..43) a corrupted count is a fatal loader error: not for an in-process run
-                    if self.K("loaderChecksNseq") and 36 <= off < 44: off = rng.choice(list(range(12, 36)) + list(range(44, 52)))
+                    # the loader checks the header's nseq (bytes 36..43) at end of data: a corrupted count is a fatal loader error, not for an in-process run
+                    if 36 <= off < 44: off = rng.choice(list(range(12, 36)) + list(range(44, 52)))
                     return "dsqi:%d:%d" % (off, rng.randrange(1, 256))
                 if kind == "stub1": return "stub:%d:%d" % (rng.randrange(0, 30), rng.choice([1, 2, 16, 32, 0x80, rng.randrange(1, 256)]))
                 if kind == "stub": return "stub:%d:%d" % (rng.randrange(0, 200), rng.randrange(1, 256))
                 if kind == "trunc":
                     f = rng.choice(["dsqi", "dsqm", "dsqs", "stub"])
                     lim = {"dsqi": 52 + 16 * nseq, "dsqm": 7, "dsqs": 7, "stub": 40}[f]     # data files cut inside the header only: a loader that runs out of data is fatal by design
-                    if f == "dsqi" and self.K("loaderChecksNseq"):      # a cut index is a fatal loader error in this tree: left to the forked dsqcut runs
+                    if f == "dsqi":      # a cut index is a fatal loader error (fix 78cbf46): left to the forked dsqcut runs
                         return "dsqi:trunc:%d" % rng.choice([0, 4, 8, 51, rng.randrange(0, 52), 52 + 16 * nseq, 52 + 16 * nseq + 3])
                     return "%s:trunc:%d" % (f, rng.choice([0, 1, 3, 4, 7, rng.randrange(0, lim + 1)]) if f != "dsqi" else rng.choice([0, 4, 8, 51, 52, 52 + 16 * rng.randrange(0, nseq + 1), rng.randrange(0, lim + 1)]))
                 return "-"
@@ -869,8 +864,11 @@ class C12(Prop):
                     if not l.startswith("cut-fatal who=loader"):
                         return Failure("monitor", "%s cut at byte %d of %d: expected the loader's fatal short-read error, got %r" % (a["file"], at, L, l[:200]))
                 else:
-                    if not l.startswith(("cut-ok ", "cut-fatal who=loader")) or (l.startswith("cut-ok ") and int(kv(l)["nseq"]) > (at - 52) // 16):
-                        return Failure("monitor", "dsqi cut at byte %d: %r" % (at, l[:200]))
+                    # index records missing: the loader's end-of-data check against the header's nseq must stop the run (fix 78cbf46);
+                    # eslEOF after the surviving records = a truncated database passed off as a complete, smaller one
+                    if not l.startswith("cut-fatal who=loader"):
+                        return Failure("monitor", "dsqi cut at byte %d of %d (%d of %d index records left): expected the loader's fatal error, got %r" % (
+                            at, L, (at - 52) // 16, len(ds), l[:200]))
             elif w[0] == "dsqrt":
                 if l.startswith(("fault", "atexit")):
                     return Failure("fault", "threaded read-back died: %s" % l[:200])
